@@ -19,6 +19,7 @@ import IcontractModel.Spec.PyEval
 import IcontractModel.Represent
 import IcontractModel.Lemmas.ExprWf
 import IcontractModel.AllTrace
+import IcontractModel.SrcScan
 open Lean Icontract
 
 deriving instance FromJson, ToJson for Exc
@@ -770,6 +771,15 @@ def handle (line : String) : String :=
       match (fromJson? j : Except String CheckerCase) with
       | .ok c => (runChecker c).compress
       | .error e => (Json.mkObj [("error", jStr s!"decode checker: {e}")]).compress
+    | .ok "srcscan" =>
+      match j.getObjValAs? (List String) "kinds", j.getObjValAs? Nat "lineno" with
+      | .ok ks, .ok n =>
+        let kinds : List Src.LineKind := ks.map (fun k => if k == "deco" then .deco else if k == "defcls" then .defcls else .other)
+        (match Src.scan kinds n with
+         | .ok (s, e) => (Json.mkObj [("scan", jArr [jNat s, jNat e])]).compress
+         | .error .badLineno => (Json.mkObj [("scan", jStr "ValueError")]).compress
+         | .error _ => (Json.mkObj [("scan", jStr "SyntaxError")]).compress)
+      | _, _ => (Json.mkObj [("error", jStr "srcscan: bad input")]).compress
     | .ok "alltrace" =>
       -- the iteration of an `all(<generator>)`: per assignment the truth of the element ("raise" = the element raises)
       match j.getObjValAs? (Array Json) "truths" with
